@@ -236,6 +236,15 @@ struct World : sim::configuration
 	}
 	~World() override
 	{
+		if (trace_sink())
+		{
+			std::string& t = *trace_sink();
+			t += fmt("world nodes=%zu taps=%zu events=%zu final_time=%lld\n", topo.nodes.size(), taps.size(), events.size(), now_ns());
+			for (auto const& e : events)
+				t += fmt("E t=%lld tap=%d k=%d ty=%d len=%d ovh=%d seq=%llu h=%016llx from=%s:%d bc=%u\n", e.t, e.tap, e.kind, e.type, e.payload, e.overhead
+					, (unsigned long long)e.seq, (unsigned long long)e.hash, e.from.address().to_string().c_str(), e.from.port(), e.byte_counter);
+			for (auto const& n : dns_log) t += "dns " + n + "\n";
+		}
 		ios.clear();
 		sim_holder.reset();
 	}
